@@ -34,13 +34,9 @@ ViewSizeOut(W, H, l, t, w, h) == Lt(W, Add(l, w)) \/ Lt(H, Add(t, h))
 
 \* result r is one of "ok", "err:PositionIsOutOfImageBoundaries", "err:SizeIsOutOfImageBoundaries"
 ViewDecisionOK(W, H, l, t, w, h, r) ==
-    IF ViewZeroArea(w, h)
-    THEN \* an empty rectangle: accepting (it exposes nothing) or rejecting are both inside the statement,
-         \* but only with a documented answer
-         \/ (r = "ok" /\ ViewInside(W, H, l, t, w, h))
-         \/ (r = "err:PositionIsOutOfImageBoundaries" /\ ViewPosOut(W, H, l, t))
-         \/ (r = "err:SizeIsOutOfImageBoundaries" /\ ViewSizeOut(W, H, l, t, w, h))
-    ELSE IF ViewInside(W, H, l, t, w, h)
+    \* the statement's "if and only if": an inside rectangle -- empty ones on the border included -- is accepted,
+    \* anything else gets an error whose documented condition holds (the borders belong to both error conditions)
+    IF ViewInside(W, H, l, t, w, h)
     THEN r = "ok"
     ELSE \/ (r = "err:PositionIsOutOfImageBoundaries" /\ ViewPosOut(W, H, l, t))
          \/ (r = "err:SizeIsOutOfImageBoundaries" /\ ViewSizeOut(W, H, l, t, w, h))
